@@ -1,4 +1,70 @@
-(* C01 — placeholder until the round-trip lemmas land *)
-From PT Require Import Newick.
-Theorem C01_placeholder : True. Proof. exact I. Qed.
-Print Assumptions C01_placeholder.
+(* C01 — Newick write-then-parse round trip is lossless.
+   Statements only; proofs in lemmas/RoundTrip.v.  Model: Newick.v (to_newick, from_newick).
+   Lengths are abstract: L with print_len (Rust `{v}` Display) and parse_len (str::parse::<f64>); the two
+   premises H1/H2 state what the property needs from std and are visible in every statement (trusted for
+   f64, checked on every run by the harness on all values it uses):
+     H1  forall l, ok_len l -> parse_len (print_len l) = Some l        (ok_len: not NaN)
+     H2  print_len l is non-empty and contains no Newick metacharacter and no whitespace.
+   ltree: rose trees labelled with (name, length, comment); LRep t p d i r: slot i of arena t represents r with
+   exactly those labels; labels_ok: names None or non-empty, metacharacters / whitespace only inside balanced
+   double quotes (name_okb); comments None or non-empty without ']'; lengths None or ok_len; the root may carry
+   all three.  Shape, child order, names, comments and lengths of the re-parsed tree are those of r (LRep ... r:
+   Leibniz equality on L = bit identity), and writing it again gives the identical text. *)
+From PT Require Import Arena Spec Queries Newick RoundTrip.
+
+Theorem C01_round_trip :
+  forall (L : Type) (print_len : L -> str) (parse_len : str -> option L) (ok_len : L -> Prop),
+  (forall l : L, ok_len l -> parse_len (print_len l) = Some l) ->
+  (forall l : L, print_len l <> [] /\ Forall safe_char (print_len l)) ->
+  forall (t : @arena L) (root d : nat) (r : ltree L) (txt : rstr),
+  LRep t None d root r -> get_root t = Ok root -> labels_ok ok_len r -> to_newick t = Ok txt ->
+  exists t' : arena,
+    from_newick parse_len (flatten print_len txt) = Ok t' /\
+    LRep t' None 0 0 r /\ Rep t' None 0 0 (skel 0 r) /\ ids (skel 0 r) = seq 0 (length t') /\ WF t' /\
+    to_newick t' = Ok txt.
+Proof. exact round_trip. Qed.
+Print Assumptions C01_round_trip.
+
+(* the same for any well-formed arena (removed slots anywhere), labels read off the arena *)
+Theorem C01_round_trip_WF :
+  forall (L : Type) (print_len : L -> str) (parse_len : str -> option L) (ok_len : L -> Prop),
+  (forall l : L, ok_len l -> parse_len (print_len l) = Some l) ->
+  (forall l : L, print_len l <> [] /\ Forall safe_char (print_len l)) ->
+  forall (t : @arena L) (root : nat) (sk : rtree) (txt : rstr),
+  Rep t None 0 root sk -> (forall i : nat, live t i -> In i (ids sk)) ->
+  labels_ok ok_len (decorate t sk) -> to_newick t = Ok txt ->
+  exists t' : arena,
+    from_newick parse_len (flatten print_len txt) = Ok t' /\
+    LRep t' None 0 0 (decorate t sk) /\ Rep t' None 0 0 (skel 0 (decorate t sk)) /\
+    ids (skel 0 (decorate t sk)) = seq 0 (length t') /\ WF t' /\ to_newick t' = Ok txt.
+Proof. exact round_trip_WF. Qed.
+Print Assumptions C01_round_trip_WF.
+
+(* the writer alone: the text is the textbook rendering of the represented tree *)
+Theorem C01_write : forall (L : Type) (t : @arena L) (root d : nat) (r : ltree L),
+  LRep t None d root r -> get_root t = Ok root -> to_newick t = Ok (rprint r ++ [C ch_semi]).
+Proof. exact @write_correct. Qed.
+Print Assumptions C01_write.
+
+(* the parser on any printed tree with admissible labels (single nodes, unary, multifurcating, unnamed ...) *)
+Theorem C01_parse_print :
+  forall (L : Type) (print_len : L -> str) (parse_len : str -> option L) (ok_len : L -> Prop),
+  (forall l : L, ok_len l -> parse_len (print_len l) = Some l) ->
+  (forall l : L, print_len l <> [] /\ Forall safe_char (print_len l)) ->
+  forall r : ltree L, labels_ok ok_len r ->
+  exists t' : arena,
+    from_newick parse_len (lprint print_len r ++ [ch_semi]) = Ok t' /\
+    SRep t' None 0 (skel 0 r) r /\ LRep t' None 0 0 r /\ Rep t' None 0 0 (skel 0 r) /\
+    ids (skel 0 r) = seq 0 (length t') /\ WF t'.
+Proof. exact parse_print. Qed.
+Print Assumptions C01_parse_print.
+
+(* non-vacuity: H1/H2 are satisfiable (L := bool printed as "1"/"0") and a concrete arena with a removed slot and its root
+   in slot 2, for the text (A:1,:0)R[c]; , meets the premises of C01_round_trip *)
+Theorem C01_example :
+  exists t' : @arena bool,
+    from_newick Example.ps [40;65;58;49;44;58;48;41;82;91;99;93;59]%N = Ok t' /\
+    LRep t' None 0 0 Example.r_ex /\ WF t' /\ to_newick t' = Ok (rprint Example.r_ex ++ [C ch_semi]).
+Proof. destruct Example.ex_round_trip as [t' [H1 [H2 [_ [_ [H5 H6]]]]]]. exists t'. repeat split; assumption. Qed.
+Print Assumptions C01_example.
+(* Known finding KF1 (not covered, excluded by labels_ok): a name or comment that is the empty string. *)
